@@ -347,6 +347,9 @@ theorem runWith_pres (special : SpecialFn) (mode : Mode) (c : Nat) (sig : Sig) (
     Pres I (runWith special mode c sig raw fromScript) := by
   unfold runWith
   refine Pres.bind (fr_getConn c) (fun conn => ?_)
+  split
+  · -- refused in subscriber mode: nothing happens
+    exact Pres.pure _
   refine Pres.bind (fr_getDb _) (fun db => ?_)
   extract_lets gate
   clear_value gate
@@ -1689,9 +1692,16 @@ theorem runCommand_bytes (mode : Mode) (c : Nat) (sig : Sig) (args : List Bytes)
       match runGate sig false ((s1.conn c).pubsub > 0) with
       | some e => (some (.err (strBytes e)), s1)
       | none => afterSpecial (s1.conn c).db [] (special (runInner mode c) mode c sig.name (args.map Arg.raw) []) s1 := by
-  rw [runCommand_not_script mode c sig args false hns, runWith_special_run _ mode c sig args false s1 hreg]
-  simp only [happ, set_getD_self]
-  rfl
+  rw [runCommand_not_script mode c sig args false hns]
+  cases hr : s1.refuses c sig with
+  | true =>
+    -- refused before the arguments are looked at; as `apply` leaves the database alone the old gate agrees
+    rw [runWith_refused _ mode c sig args false hr, runGate_direct_of_refused hr]
+    rfl
+  | false =>
+    rw [runWith_special_run _ mode c sig args false s1 hreg hr]
+    simp only [happ, set_getD_self]
+    rfl
 
 theorem afterSpecial_unit (d : Nat) (X : M Unit) (s1 : Sys) :
     afterSpecial d [] (do X; return .ok (none, []) : M SpecialOut) s1 = (none, (X s1).2) := rfl
@@ -2696,73 +2706,28 @@ theorem isSub_runHistory (evs : List Ev) (c : Nat) (q : Bool) (m : Bytes) (hq : 
 
 /-! ## Part 7: subscriber mode — the gate -/
 
-/-- the reply of a refused command: argument errors and `missing_return` short-cuts of `Signature.apply` come
-first, then the fixed error -/
-def gatedReply : Except Err Sig.Applied → Reply
-  | .error e => .err (strBytes e)
-  | .ok (.short r) => r
-  | .ok (.ok _ _) => .err (strBytes Msgs.BAD_COMMAND_IN_PUBSUB_MSG)
-
 theorem runGate_subscribed (sig : Sig) (hna : sig.name ∉ SigTable.pubsubAllowed) :
     runGate sig false true = some Msgs.BAD_COMMAND_IN_PUBSUB_MSG := by
   have : SigTable.pubsubAllowed.contains sig.name = false := by simpa using hna
   simp [runGate, this, hna]
 
+/-- a closed subscriber-mode gate: `_run_command` answers the fixed error before it looks at the arguments
+(no conversion error, no `missing_return` short-cut takes precedence) and the state is literally unchanged
+(no lazy expiry of the keys) -/
 theorem runWith_gated (special : SpecialFn) (mode : Mode) (c : Nat) (sig : Sig) (args : List Bytes) (s1 : Sys)
     (hg : runGate sig false ((s1.conn c).pubsub > 0) = some Msgs.BAD_COMMAND_IN_PUBSUB_MSG) :
-    runWith special mode c sig args false s1 =
-      (some (gatedReply (sig.apply args (s1.dbAt (s1.conn c).db)).2),
-        s1.setDbS (s1.conn c).db (sig.apply args (s1.dbAt (s1.conn c).db)).1) := by
-  cases hreg : Cmd.regular sig.name with
-  | some body =>
-    rw [runWith_regular_run special mode c sig args false hreg]
-    unfold Sys.regularOut runRegular
-    rw [hg]
-    show _ = (some (gatedReply (sig.apply args ⟨s1.srv.dbs.getD (s1.conn c).db [], s1.srv.time⟩).2),
-      s1.setDbS (s1.conn c).db (sig.apply args ⟨s1.srv.dbs.getD (s1.conn c).db [], s1.srv.time⟩).1)
-    generalize sig.apply args ⟨s1.srv.dbs.getD (s1.conn c).db [], s1.srv.time⟩ = ap
-    obtain ⟨db1, res⟩ := ap
-    cases res with
-    | error e => rfl
-    | ok a => cases a <;> rfl
-  | none =>
-    rw [runWith_special_run special mode c sig args false s1 hreg]
-    simp only [hg]
-    show _ = (some (gatedReply (sig.apply args ⟨s1.srv.dbs.getD (s1.conn c).db [], s1.srv.time⟩).2),
-      s1.setDbS (s1.conn c).db (sig.apply args ⟨s1.srv.dbs.getD (s1.conn c).db [], s1.srv.time⟩).1)
-    generalize sig.apply args ⟨s1.srv.dbs.getD (s1.conn c).db [], s1.srv.time⟩ = ap
-    obtain ⟨db1, res⟩ := ap
-    cases res with
-    | error e => rfl
-    | ok a => cases a <;> rfl
+    runWith special mode c sig args false s1 = (some (.err (strBytes Msgs.BAD_COMMAND_IN_PUBSUB_MSG)), s1) :=
+  runWith_refused special mode c sig args false (Sys.refuses_of_gate_some rfl hg).1
 
 theorem runScriptCmd_gated (mode : Mode) (c : Nat) (sig : Sig) (args : List Bytes) (s1 : Sys)
     (hg : runGate sig false ((s1.conn c).pubsub > 0) = some Msgs.BAD_COMMAND_IN_PUBSUB_MSG) :
-    runScriptCmd mode c sig args false s1 =
-      (some (gatedReply (sig.apply args (s1.dbAt (s1.conn c).db)).2),
-        s1.setDbS (s1.conn c).db (sig.apply args (s1.dbAt (s1.conn c).db)).1) := by
-  unfold runScriptCmd
-  simp only [bind, StateT.bind, getConn_run, getDb_run, setDb_run]
-  show _ = (some (gatedReply (sig.apply args ⟨s1.srv.dbs.getD (s1.conn c).db [], s1.srv.time⟩).2),
-      s1.setDbS (s1.conn c).db (sig.apply args ⟨s1.srv.dbs.getD (s1.conn c).db [], s1.srv.time⟩).1)
-  generalize sig.apply args ⟨s1.srv.dbs.getD (s1.conn c).db [], s1.srv.time⟩ = ap
-  obtain ⟨db1, res⟩ := ap
-  cases res with
-  | error e => rfl
-  | ok a =>
-    cases a with
-    | short r => rfl
-    | ok a cis => simp only [hg]; rfl
+    runScriptCmd mode c sig args false s1 = (some (.err (strBytes Msgs.BAD_COMMAND_IN_PUBSUB_MSG)), s1) :=
+  runScriptCmd_refused mode c sig args false (Sys.refuses_of_gate_some rfl hg).1
 
 theorem runCommand_gated (mode : Mode) (c : Nat) (sig : Sig) (args : List Bytes) (s1 : Sys)
     (hg : runGate sig false ((s1.conn c).pubsub > 0) = some Msgs.BAD_COMMAND_IN_PUBSUB_MSG) :
-    runCommand mode c sig args false s1 =
-      (some (gatedReply (sig.apply args (s1.dbAt (s1.conn c).db)).2),
-        s1.setDbS (s1.conn c).db (sig.apply args (s1.dbAt (s1.conn c).db)).1) := by
-  unfold runCommand
-  split
-  · exact runScriptCmd_gated mode c sig args s1 hg
-  · exact runWith_gated _ mode c sig args s1 hg
+    runCommand mode c sig args false s1 = (some (.err (strBytes Msgs.BAD_COMMAND_IN_PUBSUB_MSG)), s1) :=
+  runCommand_refused mode c sig args false (Sys.refuses_of_gate_some rfl hg).1
 
 theorem foldl_forget_crashed (l : List Nat) (x : Sys) : (l.foldl Sys.forget x).crashed = x.crashed := by
   induction l generalizing x with
@@ -2779,34 +2744,29 @@ theorem prep_crashed (s : Sys) : (prep s).crashed = s.crashed := by
   · simp only; split <;> exact h2
 
 /-- While `Conn.pubsub > 0`, a request (outside MULTI, right number of arguments) for a command other than
-(P)SUBSCRIBE / (P)UNSUBSCRIBE / PING / QUIT: after the clean-up and the clock refresh the arguments are converted
-and the keys looked up (`Signature.apply`: lazy expiry only), then the fixed error is the reply.  The body does not
-run. -/
+(P)SUBSCRIBE / (P)UNSUBSCRIBE / PING / QUIT: after the clean-up and the clock refresh that precede every known command
+the fixed error is the reply.  The arguments are not converted, no key is looked up, the body does not run. -/
 theorem process_gated (mode : Mode) (c : Nat) (nameB : Bytes) (args : List Bytes) (s : Sys) (sig : Sig)
     (hsig : lookupSig nameB = some sig) (har : sig.checkArity args.length = true) (htx : (s.conn c).tx = none)
     (hps : (s.conn c).pubsub > 0) (hna : sig.name ∉ SigTable.pubsubAllowed) :
     processCommand mode c (nameB :: args) s =
-      ((), finish c (((prep s).setDbS ((prep s).conn c).db (sig.apply args ((prep s).dbAt ((prep s).conn c).db)).1).emitS c
-        (gatedReply (sig.apply args ((prep s).dbAt ((prep s).conn c).db)).2))) := by
+      ((), finish c ((prep s).emitS c (.err (strBytes Msgs.BAD_COMMAND_IN_PUBSUB_MSG)))) := by
   have hg : runGate sig false (((prep s).conn c).pubsub > 0) = some Msgs.BAD_COMMAND_IN_PUBSUB_MSG := by
     rw [prep_pubsub]; simp only [hps, decide_true]; exact runGate_subscribed sig hna
   rw [processCommand_known mode c nameB args s hsig, dispatchBody_run _ _ _ _ _ _ har htx,
     runCommand_gated mode c sig args (prep s) hg]
 
-/-- … and, apart from that lazy expiry in the selected database, the reply and the clean-up / clock refresh that
-precede every known command, nothing changes: tables, connection records, every other database -/
+/-- … and, apart from the reply and the clean-up / clock refresh that precede every known command, nothing changes:
+the final state is literally `prep s` plus the reply — tables, connection records, every database (no lazy expiry) -/
 theorem process_gated_frame (mode : Mode) (c : Nat) (nameB : Bytes) (args : List Bytes) (s : Sys) (sig : Sig)
     (hsig : lookupSig nameB = some sig) (har : sig.checkArity args.length = true) (htx : (s.conn c).tx = none)
     (hps : (s.conn c).pubsub > 0) (hna : sig.name ∉ SigTable.pubsubAllowed) (hcr : s.crashed = none) :
     let s' := (processCommand mode c (nameB :: args) s).2
-    s'.srv.subs = (prep s).srv.subs ∧ s'.srv.psubs = (prep s).srv.psubs ∧ s'.srv.conns = (prep s).srv.conns ∧
-    (∀ j, j ≠ ((prep s).conn c).db → s'.srv.dbs.getD j [] = (prep s).srv.dbs.getD j []) ∧
-    s'.out = (if (s.conn c).closed then s.out else
-      (c, gatedReply (sig.apply args ((prep s).dbAt ((prep s).conn c).db)).2) :: s.out) := by
+    s' = (prep s).emitS c (.err (strBytes Msgs.BAD_COMMAND_IN_PUBSUB_MSG)) ∧
+    s'.srv = (prep s).srv ∧
+    s'.out = (if (s.conn c).closed then s.out else (c, .err (strBytes Msgs.BAD_COMMAND_IN_PUBSUB_MSG)) :: s.out) := by
   intro s'
-  have e : s' = finish c (((prep s).setDbS ((prep s).conn c).db
-      (sig.apply args ((prep s).dbAt ((prep s).conn c).db)).1).emitS c
-        (gatedReply (sig.apply args ((prep s).dbAt ((prep s).conn c).db)).2)) := by
+  have e : s' = finish c ((prep s).emitS c (.err (strBytes Msgs.BAD_COMMAND_IN_PUBSUB_MSG))) := by
     show (processCommand mode c (nameB :: args) s).2 = _
     rw [process_gated mode c nameB args s sig hsig har htx hps hna]
   have hcr' : ∀ (x : Sys) r, x.crashed = none → finish c (x.emitS c r) = x.emitS c r := by
@@ -2816,13 +2776,8 @@ theorem process_gated_frame (mode : Mode) (c : Nat) (nameB : Bytes) (args : List
     rw [this]; rfl
   have hpc : (prep s).crashed = none := (prep_crashed s).trans hcr
   rw [hcr' _ _ (by exact hpc)] at e
-  refine ⟨?_, ?_, ?_, ?_, ?_⟩
-  · rw [e, Sys.emitS_srv]; rfl
-  · rw [e, Sys.emitS_srv]; rfl
-  · rw [e, Sys.emitS_srv]; rfl
-  · intro j hj
-    rw [e, Sys.emitS_srv]
-    exact getD_set_ne _ _ _ _ _ hj
+  refine ⟨e, ?_, ?_⟩
+  · rw [e, Sys.emitS_srv]
   · rw [e, Sys.emitS_out]
     show (if ((prep s).conn c).closed = true then (prep s).out else _ :: (prep s).out) = _
     rw [prep_closed, prep_out]
